@@ -60,6 +60,9 @@ pub struct TlCase {
     /// the callers keep the resolved response future alive for this long before dropping it
     #[serde(default)]
     pub hold: Option<u64>,
+    /// every kind of event listener is registered on the layer
+    #[serde(default)]
+    pub listeners: bool,
     pub calls: Vec<TlCall>,
     pub order: Vec<u8>,
 }
@@ -111,9 +114,10 @@ fn case_strategy(_tier: Tier) -> BoxedStrategy<TlCase> {
             prop::bool::weighted(0.06),
             any::<bool>(),
             prop_oneof![2 => Just(None), 1 => (1u64..=40).prop_map(Some)],
+            prop::bool::weighted(0.3),
         ),
     )
-        .prop_map(|(timeout, per_request, cancel, drop_service, calls, order, (huge_timeout, cancel_first, hold))| TlCase {
+        .prop_map(|(timeout, per_request, cancel, drop_service, calls, order, (huge_timeout, cancel_first, hold, listeners))| TlCase {
             timeout,
             per_request: per_request && !huge_timeout,
             cancel,
@@ -121,6 +125,7 @@ fn case_strategy(_tier: Tier) -> BoxedStrategy<TlCase> {
             huge_timeout,
             cancel_first,
             hold,
+            listeners,
             calls,
             order,
         })
@@ -203,19 +208,28 @@ async fn interp(case: &TlCase) -> Verdict {
         );
     }
     let inner = Scripted::from_table(log.clone(), table, Step::ok(0));
+    macro_rules! with_listeners {
+        ($b:expr) => {{
+            let b = $b;
+            if case.listeners {
+                b.on_success(|_| {}).on_error(|_| {}).on_timeout(|| {})
+            } else {
+                b
+            }
+        }};
+    }
     // two differently typed services (fixed / per-request timeout): box the call closure
     let mut call: Option<Box<dyn FnMut(usize, Option<Req>) -> Option<Fut>>> = Some(if case.per_request {
         fn per_req(r: &Req) -> Duration {
             Duration::from_millis(r.tag)
         }
         let layer = if case.cancel_first {
-            TimeLimiterLayer::builder()
+            with_listeners!(TimeLimiterLayer::builder()
                 .cancel_running_future(case.cancel)
-                .timeout_fn(per_req as fn(&Req) -> Duration)
-                .build()
+                .timeout_fn(per_req as fn(&Req) -> Duration))
+            .build()
         } else {
-            TimeLimiterLayer::builder()
-                .timeout_fn(per_req as fn(&Req) -> Duration)
+            with_listeners!(TimeLimiterLayer::builder().timeout_fn(per_req as fn(&Req) -> Duration))
                 .cancel_running_future(case.cancel)
                 .build()
         };
@@ -247,15 +261,14 @@ async fn interp(case: &TlCase) -> Verdict {
             Duration::from_millis(case.timeout)
         };
         let layer = if case.cancel_first {
-            TimeLimiterLayer::builder()
-                .cancel_running_future(case.cancel)
+            with_listeners!(TimeLimiterLayer::builder().cancel_running_future(case.cancel))
                 .timeout_duration(fixed)
                 .build()
         } else {
-            TimeLimiterLayer::builder()
+            with_listeners!(TimeLimiterLayer::builder()
                 .timeout_duration(fixed)
-                .cancel_running_future(case.cancel)
-                .build()
+                .cancel_running_future(case.cancel))
+            .build()
         };
         let mut svc = layer.layer(inner.clone());
         let mut warm = std::collections::HashMap::new();
@@ -500,6 +513,9 @@ async fn interp(case: &TlCase) -> Verdict {
     let mut classes = vec![];
     if near {
         classes.push("latency_within_1ms_of_deadline");
+    }
+    if case.listeners {
+        classes.push("event_listeners_registered");
     }
     if any_abandoned {
         classes.push("caller_gave_up_before_resolution");
